@@ -171,6 +171,10 @@ def run(ctx):
     n_ib = _c01b.index_bound_sites(ctx, "C02/index-bound")
     ctx.floor("C02/index-bound", "set_value_at call sites", n_ib, 6)
     _c16b.rule_write_at_window(ctx, R="C02/write-at-window")
+    # ... and the flush's `buffer[mark..]` is in range only because the mark is the section's own record of an earlier image length
+    # (same rule instance as C09/append-flush)
+    from rules import c09 as _c09f
+    _c09f.rule_append_flush(ctx, R="C02/flush-mark-in-image")
 
 
 def nearest_guard(b, o, block):
